@@ -56,14 +56,13 @@ func (t *mixedTable) insert(k, v Value) {
 // Set k => v only if there is already v1 such that k => v1.  Returns true if
 // that is the case.
 func (t *mixedTable) reset(k, v Value) (wasSet bool) {
-	i, ok := ToIntNoString(k)
-	if ok {
+	i, isInt := ToIntNoString(k)
+	if isInt {
+		var ok bool
 		ok, wasSet = t.array.resetValue(i, v)
 		if ok {
 			return
 		}
-	}
-	if ok {
 		k = IntValue(i)
 	}
 	return t.hashTable.reset(k, v)
